@@ -51,10 +51,13 @@ class Fault(OSError):
 class Recorder:
     """shared by both recording filesystems: the call log, and the fault to inject (k-th call)"""
 
-    def __init__(self, fail_at=None, fail_kind=None):
+    def __init__(self, fail_at=None, fail_kind=None, close_loses=False):
         self.log = []              # [kind, path, extra]
         self.fail_at = fail_at     # index into the log of write-side calls
         self.wcalls = 0            # number of write-side calls seen (openW, write, close-after-write)
+        # buffered I/O whose flush happens at close: a write hands over only the first half of its data, the rest
+        # reaches the file at close, and a failing close loses it
+        self.close_loses = close_loses
 
     def _tick(self, kind):
         i = self.wcalls
@@ -82,9 +85,13 @@ class Recorder:
                 if fail:
                     real_write(data[: len(data) // 2]); f.flush()
                     raise Fault("injected: write failed after half of the data")
+                if rec.close_loses:
+                    held.append(data[len(data) // 2:])
+                    real_write(data[: len(data) // 2]); f.flush()
+                    return len(data)
                 return real_write(data)
 
-            closed = [False]
+            closed = [False]; held = []
 
             def close():
                 if closed[0]:
@@ -92,9 +99,11 @@ class Recorder:
                 closed[0] = True
                 fail = rec._tick("close")
                 rec.log.append(["close", path, None])
+                if held and not fail:
+                    for h in held: real_write(h)
                 real_close()
                 if fail:
-                    raise Fault("injected: close failed (data already flushed)")
+                    raise Fault("injected: close failed" + (" (the buffered half of the data is lost)" if rec.close_loses else " (data already flushed)"))
             f.write = write
             f.close = close
         return f
